@@ -12,6 +12,35 @@ PY3_15 = sys.version_info >= (3, 15)
 PYPY = platform.python_implementation() == "PyPy"
 
 
+if ast.unparse(ast.BinOp(ast.Constant(-1), ast.Pow(), ast.Constant(2))) == "-1 ** 2":
+    # `ast.unparse` doesn't expect negative numbers as constants, because
+    # Python's own parser never produces them, and so doesn't parenthesize
+    # them where precedence requires (`(-1) ** 2`, `(-5).real`). Spell
+    # them as the parser would.
+    import copy as _copy
+    import math as _math
+
+    class _NegativeConstants(ast.NodeTransformer):
+        def visit_Constant(self, node):
+            v = node.value
+            new = None
+            if type(v) in (int, float) and _math.copysign(1, v) < 0:
+                new = ast.UnaryOp(ast.USub(), ast.Constant(-v))
+            elif (type(v) is complex and _math.copysign(1, v.real) > 0
+                    and v.real == 0 and v.imag < 0):
+                new = ast.BinOp(
+                    ast.Constant(0), ast.Sub(), ast.Constant(complex(0, -v.imag)))
+            return node if new is None else ast.copy_location(new, node)
+
+    _plain_unparse = ast.unparse
+
+    def _unparse_negative_constants(ast_obj):
+        return _plain_unparse(
+            _NegativeConstants().visit(_copy.deepcopy(ast_obj)))
+
+    ast.unparse = _unparse_negative_constants
+
+
 if "def" in ast.unparse(ast.parse("𝕕𝕖𝕗 = 1")):
     # Overwrite `ast.unparse` to backport https://github.com/python/cpython/pull/31012
     import copy
